@@ -27,6 +27,7 @@ structure PoolSt where
   procs : List Lst := []
   ids : List Nat := []          -- the identity of each listener's Subprocess object (unique in the world)
   names : List String := []     -- each listener's `config.name` (the same name may occur in several pools)
+  dir : List (Nat × String) := []   -- every process object of the world with its name (what `event.process.config.name` reads)
 deriving Repr
 
 inductive POut
@@ -112,11 +113,24 @@ def notify (c : Cls) (payload : Bytes) (w : W) : W :=
   let w1 := { w with events := w.events ++ [{ cls := c, payload := payload }] }
   (notified (callbacks w.pools) c).foldl (fun acc i => acceptEvent i e false acc) w1
 
-/-- `any(process is p for p in procs)`: the rejecting process is one of this pool's process *objects*.
-    The listeners' names play no part (two pools may have listeners of the same name). -/
+/-- the owner test of `handle_rejected`, as the source writes it (generated `rejectedOwnerTest`):
+    * `any(process is p for p in procs)`: the rejecting process is one of this pool's process *objects*;
+    * `process in procs`: `Subprocess.__eq__` compares priorities -- with listeners of equal priority (the harness'
+      configuration) every pool that has a process at all "owns" it;
+    * `process.config.name in self.processes`: some process of this pool has the rejecting process' *name*. -/
+def ownerTest (t : OwnerTest) (p : PoolSt) (x : Nat) : Bool :=
+  match t with
+  | .identity => p.ids.contains x
+  | .equality => !p.ids.isEmpty
+  | .name => match p.dir.lookup x with
+    | some n => p.names.contains n
+    | none => false
+
+/-- "this is one of our processes".  On the unchanged tree this is `any(process is p for p in procs)`: the listeners'
+    names play no part (two pools may have listeners of the same name). -/
 def owns (p : PoolSt) (who : Option Nat) : Bool :=
   match who with
-  | some x => p.ids.contains x
+  | some x => ownerTest rejectedOwnerTest p x
   | none => false
 
 /-- the identity of listener `li` of pool `pi` -/
@@ -334,14 +348,19 @@ def assignIds : Nat → List PoolSt → List PoolSt
   | _, [] => []
   | k, p :: ps => { p with ids := (List.range p.procs.length).map (· + k) } :: assignIds (k + p.procs.length) ps
 
+/-- the world's directory of process objects (identity, name), known to every pool -/
+def withDir (ps : List PoolSt) : List PoolSt :=
+  let d := ps.flatMap fun p => p.ids.zip p.names
+  ps.map fun p => { p with dir := d }
+
 def runCase (cfg : List String) (ops : List String) : List String :=
   let shared := match kvGet cfg "names" with
     | some "shared" => some true
     | some "unique" => some false
     | _ => none
   match kvGet cfg "handler", shared.bind (fun sh => (kvGet cfg "pools").bind (parsePools · sh)) with
-  | some "default", some ps => runOps defaultHandler { pools := assignIds 0 ps } ops
-  | some "strict", some ps => runOps strictHandler { pools := assignIds 0 ps } ops
+  | some "default", some ps => runOps defaultHandler { pools := withDir (assignIds 0 ps) } ops
+  | some "strict", some ps => runOps strictHandler { pools := withDir (assignIds 0 ps) } ops
   | _, _ => ops.map fun _ => "bad-config"
 
 end Sv.Pool
